@@ -24,7 +24,7 @@ CFG = {
                           "RpmVerif.C06.dep_setters_accumulate_in_order", "RpmVerif.C06.changelog_accumulates_in_order",
                           "RpmVerif.C06.plain_setters_last_call_wins", "RpmVerif.C06.setters_keep_new_args", "RpmVerif.C06.state_of_calls",
                           "RpmVerif.C06.url_of_calls", "RpmVerif.C06.new_defaults_readback", "RpmVerif.C06.provides_of_calls",
-                          "RpmVerif.C06.valid_of_cfg", "RpmVerif.C06.valid_of_inputs",
+                          "RpmVerif.C06.valid_of_cfg", "RpmVerif.C06.valid_of_inputs", "RpmVerif.C06.valid_of_args",
                           "RpmVerif.Pipeline.build_file_entries", "RpmVerif.Pipeline.build_file_entries_reparsed",
                           "RpmVerif.Pipeline.built_history_file_entries", "RpmVerif.Pipeline.built_package_sound"],
     "trivial_branches": ["build-rejected", "ctor-names", "wfile:fs-unsupported"],
@@ -81,7 +81,7 @@ CFG = {
                   "(setters_keep_new_args); a sequence interleaving setters and with_file calls leaves Cfg.applyAll of the former and WithFile.buildState of the latter "
                   "(state_of_calls); composed with the read-back theorems: url_of_calls, provides_of_calls, new_defaults_readback (release \"1\", epoch 0, no optional tag). "
                   "`Valid` is no longer only a hypothesis: valid_of_cfg derives it from the builder state (NUL-free Rust strings, u32 / u16 numbers, weight bound) and "
-                  "valid_of_inputs from the ARGUMENTS of PackageBuilder::new and of any call sequence (Lemmas/RustStr.lean: valid UTF-8 is a fixed point of from_utf8_lossy and "
+                  "valid_of_inputs / valid_of_args from the ARGUMENTS of PackageBuilder::new and of any call sequence (valid_of_args: the size bound is on the lengths of the arguments themselves, Lemmas/ValidWeight.lean) (Lemmas/RustStr.lean: valid UTF-8 is a fixed point of from_utf8_lossy and "
                   "closed under concatenation; Lemmas/ValidCalls.lean: directory and base name of a Rust-string destination are Rust strings; Lemmas/ValidInputs.lean: each of the "
                   "102 slots emits canonical data of bounded length). A dependency made by any public Dependency constructor (table regenerated from the source) reads back, under each of the eight kinds, with the constructor's wrapped name, the version and exactly the table's flags (dep_ctor_flags_readback; builder_ctors_in_table; dep_ctor_table_standard: the rows are rpm's RPMSENSE meanings).",
     "level_note": "Trusted: Lean kernel; model fidelity as exercised (byte-exact header prediction per case); compressors / SHA-256 crates; "
